@@ -21,9 +21,15 @@ RULE = ("direction A: full product of the published-format subset (V1/V2 x secto
         "x file-set repetitions in thorough) built by ArchiveBuilder with sector-straddling file sets plus odd-length incompressible files, files at the compressor's break-even length and a path-less name; every archive is "
         "parsed and fully extracted by the independent reference reader and 9 header fields are compared. direction B: the reference writer emits archives over the same subset "
         "(+ hash table sizes 4..64 with deleted markers in probe chains, optional junk/user-data prefix, single-unit option, zlib streams with default / StormLib unit-sized window / varied level+window, bzip2 levels) which Archive reads back under several spellings. "
+        "round 8: every product point is built a second time with sector checksums / an (attributes) file on (five combinations of generate_crcs and the attributes option): the reference reads flagged multi-sector files under the published checksum layout "
+        "(private layout = named deviation model) and extracts (attributes) to the bytes the library reads; half of each file set enters the builder from disk (add_file, add_file_with_options, add_file_with_encryption), "
+        "add_file_data covers the default-compression entry point. direction B: checksum sectors also on encrypted files (encrypted as sector nsec); each archive is opened a second time with OpenOptions.load_tables(false) + load_tables() (reads must agree), "
+        "list_all / list_all_with_hashes must return one entry per stored file with the block-table fields and name hashes the reference wrote, list_with_hashes the reference's hashes for the listed names, find_file the slot and block the reference placed the name in, "
+        "read_file_by_indices (unencrypted archives) what read_file returns. "
         "distinct = distinct (direction, configuration class) pairs compared.")
 ASSUME = ["trusted base: lib/refmpq.py, an independent reading of the public MPQ format (The MoPaQ Archive Format / Zezula) — not StormLib itself",
-          "subset: V1/V2, classic tables, none/zlib/bzip2, no sector CRC, no attributes",
+          "subset: V1/V2, classic tables, none/zlib/bzip2; sector checksums and (attributes) on in half of the builder archives; what the arrays inside (attributes) hold is C10's subject",
+          "sector checksums as published: one more offset-table entry, checksum sector behind the data and inside the stored size, ADLER32 of each sector as stored, encrypted as sector number nsec; on single-unit files the flag carries no layout",
           "format rules the reference applies: file key from the name without directory path; encryption covers whole dwords only (trailing len%4 bytes stay plain); "
           "uncompressed multi-sector files have no sector offset table and are encrypted per sector"]
 
@@ -78,14 +84,27 @@ def compare_one(man_path):
         if not any(loc == want_loc and plat == 0 for loc, plat, _ in ents):
             out.append((f"A|hash-entry-fields|locale={'neutral' if want_loc == 0 else 'language'}", f"hash entry of {name!r}: (locale, platform) = {[(hex(l), hex(p)) for l, p, _ in ents]}, added with locale {want_loc:#x}",
                         {"cfg": man["cfg"], "file": name, "locale": want_loc}))
-        # the format as published first; then the named deviations, only to *diagnose* what a mismatch is made of
-        attempts = [((True, "plain"), None), ((True, "padded-dword"), "tail-encrypted"), ((False, "plain"), "fullpath-key"), ((False, "padded-dword"), "fullpath-key+tail-encrypted")]
+        # the format as published first; then the named deviations, only to *diagnose* what a mismatch is made of.
+        # Compressed multi-sector files flagged SECTOR_CRC are read under the published checksum layout, strictly (one more
+        # offset-table entry, checksum sector behind the data and inside the stored size, ADLER32 of each sector as stored);
+        # the private layout (checksums between offset table and data, outside the stored size) is a named deviation model.
+        lay = ref.file_layout(name)
+        lflags = lay[4] if lay else 0
+        crc_file = bool(lflags & refmpq.FLAG_SECTOR_CRC)
+        crc_sectored = crc_file and bool(lflags & refmpq.FLAG_COMPRESS) and not lflags & refmpq.FLAG_SINGLE_UNIT
+        if crc_file:
+            k = "a_files_flagged_sector_crc|" + ("sectored" if crc_sectored else "single-unit-or-raw (flag carries no layout)")
+            cnt[k] = cnt.get(k, 0) + 1
+        key_attempts = [((True, "plain"), None), ((True, "padded-dword"), "tail-encrypted"), ((False, "plain"), "fullpath-key"), ((False, "padded-dword"), "fullpath-key+tail-encrypted")]
+        if not enc:
+            key_attempts = key_attempts[:1]
+        crc_models = [("published", None), ("private-front", "sector-crc-private-layout")] if crc_sectored else [(None, None)]
+        attempts = [(ka, kl, cm, cl) for cm, cl in crc_models for ka, kl in key_attempts]
         verdict, first_err = "none", None
-        for (plain, tail), label in attempts:
-            if label is not None and not enc:
-                break
+        for (plain, tail), klabel, cmodel, clabel in attempts:
+            label = "+".join(x for x in (klabel, clabel) if x) or None
             try:
-                got = ref.read(name, use_plain_name=plain, tail=tail)
+                got = ref.read(name, use_plain_name=plain, tail=tail, crc_model=cmodel)
             except Exception as ex:  # noqa
                 if first_err is None:
                     first_err = f"error: {ex}"
@@ -98,12 +117,34 @@ def compare_one(man_path):
                 first_err = f"{len(got)} bytes vs {len(want)} expected, first difference at {fd}"
         if verdict == "conformant":
             cnt["a_files_conformant"] = cnt.get("a_files_conformant", 0) + 1
+            if crc_sectored:
+                cnt["a_sector_crc_files_conformant"] = cnt.get("a_sector_crc_files_conformant", 0) + 1
         elif verdict != "none":
-            out.append((f"A|needs-deviation|{verdict}", f"{name!r} (len {f['len']}, {shape}) extracts correctly only if the reference deviates from the published format by: {verdict}",
+            out.append((f"A|needs-deviation|{verdict}", f"{name!r} (len {f['len']}, {shape}) extracts correctly only if the reference deviates from the published format by: {verdict} (under the format: {first_err})",
                         {"cfg": man["cfg"], "file": f["name"], "len": f["len"]}))
         else:
-            out.append((f"A|ref-mismatch|{mname}|enc{enc}|{shape}", f"reference extraction of {name!r} (len {f['len']}) fails under the format and under every known deviation: {first_err}",
+            out.append((f"A|ref-mismatch|{mname}|enc{enc}|{shape}" + ("|sector-crc" if crc_sectored else ""), f"reference extraction of {name!r} (len {f['len']}) fails under the format and under every known deviation: {first_err}",
                         {"cfg": man["cfg"], "file": f["name"], "len": f["len"]}))
+    # the (attributes) file is a file of the archive like any other: the reference finds and extracts it, and gets the bytes the
+    # library itself reads (what the arrays inside must hold is C10's subject, not judged here)
+    if man.get("has_attributes"):
+        cnt["a_attributes_files"] = cnt.get("a_attributes_files", 0) + 1
+        a = man.get("attributes") or {}
+        try:
+            got = ref.read("(attributes)")
+        except KeyError:
+            got = None
+            out.append(("A|ref-attributes-not-found", "reference lookup does not find (attributes) in an archive built with an attributes option", man["cfg"]))
+        except Exception as ex:  # noqa
+            got = None
+            out.append(("A|ref-attributes-unreadable", f"reference reader cannot extract (attributes): {ex}", man["cfg"]))
+        if got is not None:
+            if "content" in a:
+                cnt["a_attributes_compared"] = cnt.get("a_attributes_compared", 0) + 1
+                if open(a["content"], "rb").read() != got:
+                    out.append(("A|ref-attributes-differ-from-library-read", f"(attributes) as extracted by the reference ({len(got)} bytes) differs from what Archive::read_file returns", man["cfg"]))
+            else:
+                out.append(("A|library-cannot-read-own-attributes", f"Archive::read_file(\"(attributes)\") fails on the builder's own archive: {a.get('err')}", man["cfg"]))
     if man["listfile"]:
         try:
             lf = ref.listfile()
@@ -169,14 +210,15 @@ def gen_ref_archive(args):
         zstats[str(zp)] = zstats.get(str(zp), 0) + 1
         # sector checksums in the published layout (offset table with one more entry, checksum sector behind the data) on
         # compressed multi-sector files of plain archives; a language id on a few entries (lookups with the neutral locale find them)
-        crc = method != 0 and encm == 0 and not single and n > ss and i % 2 == 1
+        # (encrypted archives too: the checksum sector is then encrypted like a sector, with key + number of sectors)
+        crc = method != 0 and not single and n > ss and i % 2 == 1
         loc = [0, 0, 0, 0x409, 0x407][(i + k) % 5] if i >= 4 else 0
-        files.append(refmpq.RefFile(name, data, method, encm > 0, encm == 2, single and n > 0, zparams=zp, sector_crc=crc, locale=loc))
+        files.append(refmpq.RefFile(name, data, method, encm > 0, encm == 2, single and n > 0, zparams=zp, sector_crc=crc, locale=loc, crc_when_encrypted=True))
         p = os.path.join(outdir, f"b-{k}.f{i}")
         with open(p, "wb") as fh:
             fh.write(data)
         fclass = "FILL"
-        mf.append({"name": name, "content": p, "len": n, "fclass": fclass, "haspath": bool(comp), "multi": n > ss and not (single and n > 0), "sector_crc": crc, "locale": loc})
+        mf.append({"name": name, "content": p, "len": n, "fclass": fclass, "haspath": bool(comp), "multi": n > ss and not (single and n > 0), "sector_crc": crc, "locale": loc, "bi": i, "single_unit": bool(single and n > 0)})
     # every sixth archive: one encrypted single-unit file longer than 256 KiB (64 Ki dwords under one key stream)
     if k % 6 == 1 and encm > 0:
         n = 270000 + rng.randrange(150000)
@@ -187,7 +229,7 @@ def gen_ref_archive(args):
         p = os.path.join(outdir, f"b-{k}.f{i}")
         with open(p, "wb") as fh:
             fh.write(data)
-        mf.append({"name": name, "content": p, "len": n, "fclass": "FILL", "haspath": True, "multi": False, "sector_crc": False, "locale": 0})
+        mf.append({"name": name, "content": p, "len": n, "fclass": "FILL", "haspath": True, "multi": False, "sector_crc": False, "locale": 0, "bi": i, "single_unit": True})
     # every seventh archive: a hash table without a free slot (1, 2, 4, 8 or 16 entries in as many slots): the format ends a
     # lookup when the probe returns to where it started, and the last name placed may sit anywhere in the table (after C02-r7m3)
     full = k % 7 == 3
@@ -218,16 +260,20 @@ def gen_ref_archive(args):
         m["stored_raw"] = (m["len"] == 0) or all(u == e for u, e in zip(ul, expected))
         m["fclass"] = "keypath=%d|tail=%d|sectored-raw=%d" % (int(encm > 0 and m["haspath"]), int(encm > 0 and any(u % 4 for u in ul)),
                                                             int(m["multi"] and method == 0))
+    # the block table as written, with the name hashes and the hash-table slot of each entry (for the enumeration entry points)
+    rows = [{"name": info["names"][bi], "fsize": b[2], "csize": b[1], "flags": b[3], "slot": info["slots"][bi],
+             "hash_a": refmpq.hash_string(info["names"][bi], refmpq.HASH_A), "hash_b": refmpq.hash_string(info["names"][bi], refmpq.HASH_B)} for bi, b in enumerate(info["blocks"])]
+    ncrc_enc = sum(1 for m in mf if m["sector_crc"] and encm > 0)
     ap = os.path.join(outdir, f"b-{k}.mpq")
     with open(ap, "wb") as fh:
         fh.write(arc)
     shape = f"v{version}|prefix{'-userdata' if user_data else ('-junk' if prefix else '-none')}"
     opts = {"version": version, "shift": shift, "method": method, "enc": encm, "single_unit": single, "prefix": prefix, "user_data": user_data,
             "deleted_probes": info["deleted_planted"], "hash_size": hs, "listfile": listfile, "zparams": zstats, "table_layout": layout}
-    man = {"idx": k, "class": f"B|v{version}|s{shift}|m{method}|e{encm}|su{int(single)}|p{prefix}|ud{int(user_data)}|t-{layout}", "archive": ap, "files": mf, "opts": opts, "shape": shape}
+    man = {"idx": k, "class": f"B|v{version}|s{shift}|m{method}|e{encm}|su{int(single)}|p{prefix}|ud{int(user_data)}|t-{layout}", "archive": ap, "files": mf, "opts": opts, "shape": shape, "blocks": rows}
     with open(os.path.join(outdir, f"b-{k}.json"), "w") as fh:
         json.dump(man, fh)
-    return k, (zstats if method == 0x02 else {})
+    return k, (zstats if method == 0x02 else {}), {"b_files_with_sector_crc|encrypted": ncrc_enc, "b_files_with_sector_crc|plain": sum(1 for m in mf if m["sector_crc"] and encm == 0)}
 
 
 def run(tier, seed, scratch, t0):
@@ -254,7 +300,9 @@ def run(tier, seed, scratch, t0):
     os.makedirs(bdir)
     nb = 1500 if tier == "thorough" else 300
     with ProcessPoolExecutor(max_workers=sup.NCPU) as ex:
-        for _k, zs in ex.map(gen_ref_archive, [(k, seed, bdir) for k in range(nb)], chunksize=8):
+        for _k, zs, extra in ex.map(gen_ref_archive, [(k, seed, bdir) for k in range(nb)], chunksize=8):
+            for name, v in extra.items():
+                res.add_counter(name, v)
             for name, v in zs.items():
                 res.add_counter("b_zlib_files_with_stream_params|" + ("default" if name == "None" else "stormlib-window" if "stormlib" in name else "level-and-window-varied"), v)
     res.add_counter("b_archives_written_by_reference", nb)
